@@ -466,6 +466,56 @@ def sampler_constants():
     add("glrmDenseThreshold", if_gt(fn_named(t, "bipartite_random_m_edges"), "m"), "m above which glrm samples densely")
     add("regularRetries", for_range(fn_named(t, "bipartite_random_regular"), "retries"), "random tries per edge of `regular`")
     add("addEdgesRetries", for_range(fn_named(t, "add_random_missing_edges"), "_"), "sparse tries of addedges")
+
+    # `if r <= sys.maxsize: neighbours = random.sample(R, d)` of bipartite_random_left_regular: the
+    # largest r for which random.sample is asked (above it: the rejection loop over randint(1, r))
+    def sample_limit(fn, var):
+        if fn is None:
+            return None
+        for n in ast.walk(fn):
+            if isinstance(n, ast.If) and isinstance(n.test, ast.Compare) and isinstance(n.test.left, ast.Name) \
+                    and n.test.left.id == var and len(n.test.ops) == 1 and isinstance(n.test.ops[0], ast.LtE) \
+                    and any(isinstance(c, ast.Call) and isinstance(c.func, ast.Attribute) and c.func.attr == "sample"
+                            for b in n.body for c in ast.walk(b)) \
+                    and any(isinstance(c, ast.Call) and isinstance(c.func, ast.Attribute) and c.func.attr == "randint"
+                            for b in n.orelse for c in ast.walk(b)):
+                return n.test.comparators[0]
+        return None
+    lim = sample_limit(fn_named(t, "bipartite_random_left_regular"), "r")
+    descr = "largest r for which glrd asks random.sample (`sys.maxsize` of the 64 bit platform)"
+    if lim is None:
+        out.append(("glrdSampleLimit", [], None, descr + " (NOT FOUND)"))
+    elif isinstance(lim, ast.Attribute) and isinstance(lim.value, ast.Name) and lim.value.id == "sys" \
+            and lim.attr == "maxsize" and __import__("sys").maxsize == 2 ** 63 - 1:
+        out.append(("glrdSampleLimit", [], "(2 ^ 63 - 1)", descr))
+    else:
+        out.append(("glrdSampleLimit", [], None, descr + " (unsupported: {})".format(src(lim))))
+
+    # `if n <= sys.maxsize: return sorted(random.sample(range(1, n+1), k))` of sample_variables (randomformulas.py;
+    # imported by randomkxor.py): the largest n for which random.sample is asked; the randint loop comes after the `if`
+    def sample_limit_return(fn, var):
+        if fn is None:
+            return None
+        for n in fn.body:
+            if isinstance(n, ast.If) and isinstance(n.test, ast.Compare) and isinstance(n.test.left, ast.Name) \
+                    and n.test.left.id == var and len(n.test.ops) == 1 and isinstance(n.test.ops[0], ast.LtE) \
+                    and not n.orelse and n.body and isinstance(n.body[-1], ast.Return) \
+                    and any(isinstance(c, ast.Call) and isinstance(c.func, ast.Attribute) and c.func.attr == "sample"
+                            for b_ in n.body for c in ast.walk(b_)) \
+                    and any(isinstance(c, ast.Call) and isinstance(c.func, ast.Attribute) and c.func.attr == "randint"
+                            for later in fn.body[fn.body.index(n) + 1:] for c in ast.walk(later)):
+                return n.test.comparators[0]
+        return None
+    tf = parse("cnfgen/families/randomformulas.py")
+    lim = sample_limit_return(fn_named(tf, "sample_variables"), "n")
+    descr = "largest n for which sample_variables asks random.sample (`sys.maxsize` of the 64 bit platform)"
+    if lim is None:
+        out.append(("sampleVariablesLimit", [], None, descr + " (NOT FOUND)"))
+    elif isinstance(lim, ast.Attribute) and isinstance(lim.value, ast.Name) and lim.value.id == "sys" \
+            and lim.attr == "maxsize" and __import__("sys").maxsize == 2 ** 63 - 1:
+        out.append(("sampleVariablesLimit", [], "(2 ^ 63 - 1)", descr))
+    else:
+        out.append(("sampleVariablesLimit", [], None, descr + " (unsupported: {})".format(src(lim))))
     return out
 
 
@@ -566,6 +616,9 @@ def main():
     # C07: phase order of cli(), call sites of `random`, static hazards -> Generated/Phases.lean
     import extract_phases
     extract_phases.main()
+    # C19: how the generators use their graph objects -> Generated/GraphUses.lean
+    import extract_graph_uses
+    extract_graph_uses.main()
     text = emit()
     os.makedirs(os.path.dirname(OUT), exist_ok=True)
     if not (os.path.exists(OUT) and open(OUT, encoding="utf-8").read() == text):
